@@ -13,6 +13,7 @@
 #include <algorithm>
 #include <cstdint>
 #include <tlx/container/loser_tree.hpp>
+#include <memory>
 #include <vector>
 
 namespace {
@@ -41,6 +42,7 @@ struct Shape {
     bool desc;
     int k;
     int order;       // insert_start order: 0 ascending, 1 descending, 2 rotated
+    int storage = 0; // pointer variants: 0 keys in stable arrays, 1 one slot per player refilled in place, 2 fresh heap key per feed (previous one freed)
     bool arbitrary;  // streams not sorted
     std::vector<std::vector<Key>> stream; // stable storage for the pointer variants
 };
@@ -98,9 +100,26 @@ void drive_guarded(const Shape& sh, Stats& st) {
     std::vector<size_t> cur(k, 0);
     const bool copying = sh.variant == 0;
     Key scratch; // the copy variants must not keep the pointer: it is clobbered after each call
+    // pointer variants: the tree may only rely on the CURRENT key pointer of each player; the storage of a
+    // key that has been replaced may be overwritten (mode 1) or released (mode 2) by the caller
+    std::vector<Key> slot((size_t)k);
+    std::vector<std::unique_ptr<Key>> heap((size_t)k);
     auto feed = [&](int p) -> const Key* {
-        if (cur[p] >= sh.stream[p].size()) return nullptr;
-        if (!copying) return &sh.stream[p][cur[p]];
+        if (cur[p] >= sh.stream[p].size()) {
+            heap[(size_t)p].reset();
+            return nullptr;
+        }
+        if (!copying) {
+            if (sh.storage == 1) {
+                slot[(size_t)p] = sh.stream[p][cur[p]];
+                return &slot[(size_t)p];
+            }
+            if (sh.storage == 2) {
+                heap[(size_t)p].reset(new Key(sh.stream[p][cur[p]]));
+                return heap[(size_t)p].get();
+            }
+            return &sh.stream[p][cur[p]];
+        }
         scratch = sh.stream[p][cur[p]];
         return &scratch;
     };
@@ -147,8 +166,20 @@ void drive_unguarded(const Shape& sh, const Key& sentinel, Stats& st) {
     std::vector<size_t> cur(k, 0);
     const bool copying = sh.variant == 2;
     Key scratch;
+    std::vector<Key> slot((size_t)k);
+    std::vector<std::unique_ptr<Key>> heap((size_t)k);
     auto feed = [&](int p) -> const Key* {
-        if (!copying) return &sh.stream[p][cur[p]];
+        if (!copying) {
+            if (sh.storage == 1) {
+                slot[(size_t)p] = sh.stream[p][cur[p]];
+                return &slot[(size_t)p];
+            }
+            if (sh.storage == 2) {
+                heap[(size_t)p].reset(new Key(sh.stream[p][cur[p]]));
+                return heap[(size_t)p].get();
+            }
+            return &sh.stream[p][cur[p]];
+        }
         scratch = sh.stream[p][cur[p]];
         return &scratch;
     };
@@ -190,6 +221,7 @@ PBT_PROPERTY(loser_tree) {
     sh.arbitrary = ((fl >> 1) % 5) == 4;                            // 20 %: streams not sorted
     sh.order = ((fl >> 4) & 3) == 3 ? 1 + ((fl >> 6) & 1) : 0;      // 25 %: insert_start not in ascending player order
     int nvals = 1 + (int)src.range(0, 4);                           // 1..5 distinct values: ties everywhere
+    sh.storage = (int)src.range(0, 2);                              // pointer variants: where the caller keeps the keys
     const int emptymode = (int)src.weighted({4, 3, 3});             // guarded: none / few / many players start exhausted
     const bool unguarded = sh.variant >= 2;
     const int k = sh.k;
